@@ -4,7 +4,7 @@
  *
  * usage: null_guard <listfile>        lines "<row id> <runtime level>"
  * One output line per case:
- *   E row=<id> level=<n> ended=<returned|exit|crash|signal> rv=<class> changed=<0|1> heapdelta=<n> diag=<none|warning|debug|fatal|asan|other>
+ *   E row=<id> level=<n> ended=<returned|exit|crash|signal> rv=<class> changed=<0|1> heapdelta=<n> diag=<none|warning|debug|fatal|asan>
  *     status=<n> info=<first line of the diagnostic, blanks as _>
  */
 #ifndef NULL_GUARD_RT_H
@@ -167,8 +167,7 @@ static void ng_run(int id, int level) {
     else if (strstr(err, "FATAL:")) diag = "fatal";
     else if (strstr(err, "Warning:")) diag = "warning";
     else if (total == 0) diag = "none";
-    else if (strstr(err, "REQUIRE failed") || strstr(err, "ASSERT failed")) diag = "debug";
-    else diag = "other";
+    else diag = "debug";                     /* REQUIRE's log line, or any D_* statement that is live at this level */
     if (WIFSIGNALED(status)) ended = "signal";
     else if (n > 0) ended = "returned";
     else if (!strcmp(diag, "asan")) ended = "crash";
